@@ -27,8 +27,8 @@ def Matches (s s' : AS) (rest : List Bytes) (x : Bytes) : Option Outcome → Pro
 theorem solo_grow (s : AS) (x : Bytes) (rest : List Bytes) (hx : 0 < x.length)
     (ht : s.ts = [{ pc := .growCap x, todo := rest }]) :
     ∃ n, n ≤ 8 ∧ Matches s (run s (List.replicate n (0, false))) rest x (Grow.eval (envOf s x) Extracted.lockfreeGrow) := by
-  simp only [Extracted.lockfreeGrow, Grow.eval, Grow.evalE, Grow.evalC, envOf, Env.get, Env.set, Grow.evalAlloc,
-    Option.bind_some, bind, pure]
+  rw [lockfreeGrow_spec (envOf s x) rfl rfl]
+  simp only [growSpec, envOf]
   by_cases h1 : x.length > s.bucketCap * 2
   · -- oversized: growCap, allocMax, allocUpd, pushLoad, pushCas
     simp only [h1, decide_true, ↓reduceIte]
